@@ -65,6 +65,31 @@ func isStripped(info *types.Info, fd *ast.FuncDecl, e ast.Expr) bool {
 		if v == nil {
 			return false
 		}
+		// a parameter of an unexported function that is never reassigned: every call passes a stripped path
+		if fd.Type.Params != nil && stripProg != nil && stripDepth < 3 {
+			pi, k := -1, 0
+			for _, f := range fd.Type.Params.List {
+				for _, nm := range f.Names {
+					if info.Defs[nm] == v {
+						pi = k
+					}
+					k++
+				}
+			}
+			self, _ := info.Defs[fd.Name].(*types.Func)
+			if pi >= 0 && self != nil && !self.Exported() && len(newBounds(stripProg, info, fd).assigns[v]) == 0 {
+				calls := staticCallsOf(stripProg, self)
+				good := 0
+				stripDepth++
+				for _, cs := range calls {
+					if pi < len(cs.call.Args) && isStripped(cs.info, cs.fd, cs.call.Args[pi]) {
+						good++
+					}
+				}
+				stripDepth--
+				return len(calls) > 0 && good == len(calls)
+			}
+		}
 		ok := false
 		n := 0
 		ast.Inspect(fd, func(x ast.Node) bool {
@@ -116,6 +141,8 @@ func isStripped(info *types.Info, fd *ast.FuncDecl, e ast.Expr) bool {
 var (
 	stripProg  *load.Program
 	stripDepth int
+	// parameters of helpers known, for the call under analysis, to hold an import map
+	importMapParams = map[types.Object]bool{}
 )
 
 // keysOfImportMap: the expression is a slice holding exactly keys of a map of imports (which are canonical
@@ -129,6 +156,9 @@ func keysOfImportMap(info *types.Info, fd *ast.FuncDecl, e ast.Expr, depth int) 
 		t := inf.TypeOf(m)
 		if t == nil {
 			return false
+		}
+		if id, isID := ast.Unparen(m).(*ast.Ident); isID && importMapParams[inf.ObjectOf(id)] {
+			return true // a parameter of a (generic) helper that this call fills with an import map
 		}
 		mt, ok := t.Underlying().(*types.Map)
 		return ok && strings.HasSuffix(types.TypeString(mt.Elem(), nil), "registry.Package")
@@ -154,6 +184,23 @@ func keysOfImportMap(info *types.Info, fd *ast.FuncDecl, e ast.Expr, depth int) 
 				return false
 			}
 			cinfo := stripProg.Info(fn.Pkg())
+			// parameters this call fills with an import map
+			k := 0
+			var marked []types.Object
+			for _, f := range d.Type.Params.List {
+				for _, nm := range f.Names {
+					if k < len(x.Args) && isImportMap(info, x.Args[k]) && !importMapParams[cinfo.Defs[nm]] {
+						importMapParams[cinfo.Defs[nm]] = true
+						marked = append(marked, cinfo.Defs[nm])
+					}
+					k++
+				}
+			}
+			defer func() {
+				for _, o := range marked {
+					delete(importMapParams, o)
+				}
+			}()
 			okAll, n := true, 0
 			ast.Inspect(d.Body, func(nn ast.Node) bool {
 				if _, isLit := nn.(*ast.FuncLit); isLit {
@@ -291,7 +338,6 @@ func CheckImports(run *core.Run, prog *load.Program) {
 	for _, cname := range callers {
 		run.Check("G-IMPORT/who-may-register", cname, pos, allowed[cname], cname+" registers an import: only the type walker (for packages a printed type mentions) and Mock (sync, the source package) may, otherwise the import block is not exact")
 	}
-	CheckQualifierFinal(run, prog)
 	run.Count("addimport_call_sites", len(callers))
 	run.Floor("G-IMPORT/who-may-register", 2)
 }
@@ -348,6 +394,68 @@ func fromUniqueName(info *types.Info, fd *ast.FuncDecl, e ast.Expr) bool {
 			return okAll && n > 0
 		}
 		return false
+	}
+	// the field of an element of a literal table ranged over: every row's value for that field
+	if sel, ok := e.(*ast.SelectorExpr); ok {
+		xid, ok := ast.Unparen(sel.X).(*ast.Ident)
+		if !ok {
+			return false
+		}
+		var table *ast.CompositeLit
+		ast.Inspect(fd, func(n ast.Node) bool {
+			rs, ok := n.(*ast.RangeStmt)
+			if !ok || rs.Value == nil {
+				return true
+			}
+			if vid, ok := rs.Value.(*ast.Ident); ok && info.ObjectOf(vid) == info.ObjectOf(xid) {
+				if cl, ok := ast.Unparen(rs.X).(*ast.CompositeLit); ok {
+					table = cl
+				}
+			}
+			return true
+		})
+		if table == nil {
+			return false
+		}
+		var st *types.Struct
+		switch t := info.TypeOf(table).Underlying().(type) {
+		case *types.Slice:
+			st, _ = t.Elem().Underlying().(*types.Struct)
+		case *types.Array:
+			st, _ = t.Elem().Underlying().(*types.Struct)
+		}
+		if st == nil || len(table.Elts) == 0 {
+			return false
+		}
+		fi := -1
+		for i := 0; i < st.NumFields(); i++ {
+			if st.Field(i).Name() == sel.Sel.Name {
+				fi = i
+			}
+		}
+		if fi < 0 {
+			return false
+		}
+		for _, row := range table.Elts {
+			rl, ok := ast.Unparen(row).(*ast.CompositeLit)
+			if !ok {
+				return false
+			}
+			var val ast.Expr
+			for i, el := range rl.Elts {
+				if kv, ok := el.(*ast.KeyValueExpr); ok {
+					if kid, ok := kv.Key.(*ast.Ident); ok && kid.Name == sel.Sel.Name {
+						val = kv.Value
+					}
+				} else if i == fi {
+					val = el
+				}
+			}
+			if val == nil || !fromUniqueName(info, fd, val) {
+				return false
+			}
+		}
+		return true
 	}
 	id, ok := e.(*ast.Ident)
 	if !ok {
